@@ -1,5 +1,5 @@
 """C15 - dot segments are removed exactly when an authority is present."""
-from ..rules import order
+from ..rules import flow, order
 from ..rules import shape_rules as sr
 from ..rules.kindrules import make_kinds
 from ..shape import Shapes
@@ -11,7 +11,7 @@ def run(ctx):
     ctx.explanation = (
         "Static analysis. Decided: (ORD2) at the constructor, build, with_path and the child-path helper, newly quoted path "
         "text is stored un-normalised only when no authority is present or the quoted text contains no '.', and the "
-        "normaliser runs only under an authority (join normalises unconditionally, checked in C14); the dot test is "
+        "normaliser runs only under an authority (F3) join() removes the dot segments of the merged path on every path where the reference has a path, exactly when it contains '.'; the dot test is "
         "literally '.'; (ORD1) the normaliser always receives quoted text, so %2E spellings are seen; (EM-NORM) for all "
         "segment sequences the resolver never appends '.' or '..', and normalize_path keeps the root only for rooted "
         "paths; (EX5) popping above the root is suppressed. Not decided: equality with RFC 3986 5.2.4 (pop discipline, "
@@ -19,6 +19,7 @@ def run(ctx):
     K = make_kinds(ctx.model)
     order.ord2(ctx, K)
     order.flag_accumulates(ctx)
+    flow.f3_join(ctx, only={"dots"})      # join(): the merged path is normalised on every path that merges
     order.ord1(ctx, K)
     order.em_norm(ctx)
     m = ctx.model
